@@ -262,6 +262,7 @@ pub fn a_11(cfg: &Cfg) -> Vec<Op> {
         c(Hts),
         c(Tbc(Some(3))),
         c(Desig(0, true)),
+        c(Desig(1, true)),
         c(So),
         c(Bs),
     ];
